@@ -36,19 +36,19 @@ Definition code_wfv (c : cfg) : pv -> Prop := wfv (posonly_read c) c true.
 
 Theorem C13_payload_cpython_loads : forall m (repr_float : Z -> list Z) v, In m all_magics -> py3_pre311_magic m = true ->
   code_wfv (cpy_cfg m) v ->
-  load (cpy_cfg m) (dumps repr_float (posonly_read (cpy_cfg m)) v) = Ok (textify repr_float v, {| inp := []; refs := []; strs := [] |}).
+  load (cpy_cfg m) (dumps repr_float (posonly_read (cpy_cfg m)) false v) = Ok (textify repr_float v, {| inp := []; refs := []; strs := [] |}).
 Proof.
   intros m repr_float v Hin H3 Hw. destruct (cpy_code_cfg m Hin H3) as [Hc Hk].
-  exact (loads_dumps repr_float (posonly_read (cpy_cfg m)) (cpy_cfg m) Hc true (fun _ => Hk) v Hw).
+  exact (loads_dumps repr_float (posonly_read (cpy_cfg m)) false (cpy_cfg m) Hc true (fun _ => Hk) v Hw).
 Qed.
 
 (* ... and so does xdis's own unmarshaller when it re-reads the file it wrote *)
 Theorem C13_payload_xdis_rereads : forall m (repr_float : Z -> list Z) v, In m all_magics -> py3_pre311_magic m = true ->
   code_wfv (xdis_cfg m) v ->
-  load (xdis_cfg m) (dumps repr_float (posonly_read (xdis_cfg m)) v) = Ok (textify repr_float v, {| inp := []; refs := []; strs := [] |}).
+  load (xdis_cfg m) (dumps repr_float (posonly_read (xdis_cfg m)) false v) = Ok (textify repr_float v, {| inp := []; refs := []; strs := [] |}).
 Proof.
   intros m repr_float v Hin H3 Hw. destruct (xdis_code_cfg m Hin H3) as [Hc Hk].
-  exact (loads_dumps repr_float (posonly_read (xdis_cfg m)) (xdis_cfg m) Hc true (fun _ => Hk) v Hw).
+  exact (loads_dumps repr_float (posonly_read (xdis_cfg m)) false (xdis_cfg m) Hc true (fun _ => Hk) v Hw).
 Qed.
 
 Definition ex_code38 : pv :=
@@ -59,7 +59,7 @@ Definition ex_code38 : pv :=
 Example C13_payload_nonvacuous :
   existsb (Z.eqb 3413) all_magics = true /\ py3_pre311_magic 3413 = true /\ posonly_read (cpy_cfg 3413) = true
   /\ code_wfv (cpy_cfg 3413) ex_code38
-  /\ load (cpy_cfg 3413) (dumps (fun _ => []) true ex_code38) = Ok (ex_code38, {| inp := []; refs := []; strs := [] |})
+  /\ load (cpy_cfg 3413) (dumps (fun _ => []) true false ex_code38) = Ok (ex_code38, {| inp := []; refs := []; strs := [] |})
   /\ posonly_read (cpy_cfg 3394) = false.
 Proof.
   assert (Hp : posonly_read (cpy_cfg 3413) = true) by (vm_compute; reflexivity).
